@@ -133,6 +133,12 @@ func runC05(c *Ctx) {
 						if alias == "inplace" {
 							areq += " inplace"
 						}
+						if it >= 400 && it%8 != 0 {
+							// thorough tier only (quick has 150 keys): the interpreter runs ~7 ms per kernel call, so
+							// beyond the first 400 keys only every 8th key goes through the listing; the others are
+							// compared with the specification alone, as before
+							areq = sreq
+						}
 						c.Case("sm4.kernel", cl, false, areq)
 						c.Check3("sm4.kernel", cl, areq, sreq, fmt.Sprintf("ok %x", dst))
 					}
